@@ -202,10 +202,16 @@ Definition construct (c : cls) (args : list pyarg) : option pexc :=
   end.
 
 (* ================================================================== *)
-(* D20 switch.  false = the pinned tree: MaybeEncodingError has no __reduce__, so
-   unpickling calls MaybeEncodingError( *args ) again.  Set to [true] when /repo gives
-   the class a __reduce__ that restores the stored strings (the lemma
-   EInfoProofs.gen_mee_reduce ties this line to the code on every run).          *)
+(* D20 switch.  CURRENT VALUE true = /repo as it is: MaybeEncodingError has a __reduce__
+   that restores the stored strings without calling __init__ (repair commit 5caeb8f).  The
+   value false is the tree BEFORE that repair (no __reduce__: unpickling calls
+   MaybeEncodingError( *args ) again); theorems stated about [roundtrip_gen false] /
+   [iter_rt false] (C12_roundtrip_stable_refuted, C12_maybe_encoding_error_never_settles) are
+   about that counterfactual tree, not about /repo.  EInfoProofs.gen_mee_reduce ties this
+   line to the code on every run, and EInfoProofs.gen_mee_rebuild ties the [CMee, true]
+   branch of [unpickle_exc] below to the BODY of __reduce__ and of the rebuild function it
+   names (exact on objects of the shape the constructor builds: args = (exc, value),
+   __dict__ = {exc, value}; an attribute added by hand would be dropped by the real code). *)
 Definition mee_repaired : bool := true.
 (* ================================================================== *)
 
